@@ -164,8 +164,46 @@ def r4_every_syntax_quoted_symbol_is_resolved(ctx):
     txt = P.un(ra)
     ok = "is_special_form(s)" in txt.replace("s in _SPECIAL_FORMS", "is_special_form(s)") or "_SPECIAL_FORMS" in txt
     ctx.ob("C09.R4", f"{RT}::resolve_alias::special forms stay unqualified", RT, ra.lineno, ok, "" if ok else "special forms would be namespace-qualified inside templates")
-    ok = "sym.symbol(which_var.name.name, which_var.ns.name)" in txt and "sym.symbol(s.name, ns=ns.name)" in txt
-    ctx.ob("C09.R4", f"{RT}::resolve_alias::interned/referred -> the Var's namespace, otherwise the current namespace", RT, ra.lineno, ok, "" if ok else "unqualified symbols are not qualified with the namespace of the Var they denote")
+    problem = resolve_alias_problem(ra)
+    ctx.ob("C09.R4", f"{RT}::resolve_alias::interned/referred -> the Var's own name and namespace, otherwise the current namespace", RT, ra.lineno, problem is None, problem or "",
+           witness="(refer 'lib :rename '{orig renamed}) then `renamed must read lib/orig")
+
+
+def resolve_alias_problem(ra):
+    """resolve_alias looks the bare symbol up in the namespace (`ns.find`) and qualifies it.  A symbol
+    built with the found Var's namespace must also carry the found Var's *name*: a referred Var can
+    be known under another name (:rename), and `lib/<the local nickname>` is a different Var or none.
+    Decided by taint: every name computed from the lookup result is 'from the Var'; a sym.symbol(...)
+    whose namespace argument is from the Var while its name argument is not is the defect."""
+    finds = [a for a in ast.walk(ra) if isinstance(a, ast.Assign) and isinstance(a.value, ast.Call) and P.un(a.value.func).endswith(".find") and len(a.targets) == 1 and isinstance(a.targets[0], ast.Name)]
+    if not finds:
+        return "resolve_alias no longer looks the symbol up with ns.find: cannot tell which Var a bare symbol denotes"
+    tainted = {finds[0].targets[0].id}
+    changed = True
+    while changed:
+        changed = False
+        for a in ast.walk(ra):
+            if isinstance(a, ast.Assign) and len(a.targets) == 1 and isinstance(a.targets[0], ast.Name) and a.targets[0].id not in tainted:
+                if any(isinstance(x, ast.Name) and x.id in tainted for x in ast.walk(a.value)):
+                    tainted.add(a.targets[0].id)
+                    changed = True
+
+    def from_var(e):
+        return any(isinstance(x, ast.Name) and x.id in tainted for x in ast.walk(e))
+    syms = [c for c in ast.walk(ra) if isinstance(c, ast.Call) and P.un(c.func) in ("sym.symbol", "symbol") and c.args]
+    used = False
+    for c in syms:
+        name_arg = c.args[0]
+        ns_arg = c.args[1] if len(c.args) > 1 else next((k.value for k in c.keywords if k.arg == "ns"), None)
+        if ns_arg is None or isinstance(P.parent(c), ast.Call) and P.un(P.parent(c).func).endswith(".find"):
+            continue
+        if from_var(ns_arg):
+            used = True
+            if not from_var(name_arg):
+                return f"`{P.un(c)}` takes the namespace from the Var the symbol denotes but keeps the name as written: a Var referred under another name (:rename) resolves to lib/<nickname>"
+    if not used:
+        return "no symbol is qualified with the namespace of the Var it denotes: referred names would be qualified with the current namespace"
+    return None
 
 
 ANA = "src/basilisp/lang/compiler/analyzer.py"
@@ -265,6 +303,10 @@ def r5_every_subpattern_expanded_once_in_place(ctx):
 
 
 SELFTEST = [
+    {"name": "twin: resolve_alias spells the namespace argument by keyword", "file": RT, "expect": None,
+     "old": "            return sym.symbol(which_var.name.name, which_var.ns.name)\n", "new": "            the_var = which_var\n            return sym.symbol(the_var.name.name, ns=the_var.ns.name)\n"},
+    {"name": "resolve_alias keeps the written name of a referred Var", "file": RT, "expect": "C09.R4",
+     "old": "            return sym.symbol(which_var.name.name, which_var.ns.name)\n", "new": "            return sym.symbol(s.name, which_var.ns.name)\n"},
     {"name": "nested vector patterns expanded a second time at the end (the repaired defect)", "file": CORE, "expect": "C09.R5",
      "old": "    (concat\n     sequential-args\n     rest-arg)))\n", "new": "    (concat\n     sequential-args\n     rest-arg\n     (->> (:children ddef)\n          (filter #(not= :symbol (:type %)))\n          (mapcat destructure-binding)))))\n"},
     {"name": "trailing keyword map spliced regardless of parity (the repaired defect)", "file": CORE, "expect": "C09.R5",
